@@ -516,7 +516,7 @@ def result_tables(ctx):
                     witness="init_results of %s resolves to %s" % (c.name, fr.key if fr else None))
     g = S.get_function(PS + ":init_all_result_tables")
     src = ast.unparse(g.node)
-    ctx.decided("init_all_result_tables/all-components", "ensures",
+    ctx.structural("init_all_result_tables/all-components", "ensures",
                 "for comp in net['component_list']" in src and "comp.init_results(net)" in src,
                 witness=src[-200:])
     # extract_results of every component must not raise after convergence
